@@ -83,7 +83,7 @@ func runC11(tier string, r *rng) {
 		runC11With(withMetrics)
 	}
 	c11Gossip()
-	for _, restarts := range []int{0, 1, 2} {
+	for _, restarts := range []int{0, 1, 2, -1} {
 		c11Restart(restarts)
 	}
 }
@@ -246,6 +246,10 @@ func c11Gossip() {
 // the verifier rejects is broadcast locally (must be refused, the verifier consulted), a bare gossipsub peer publishes bytes
 // that are no header and then a valid header: exactly the valid header is delivered, and reading it does not panic.
 func c11Restart(restarts int) {
+	stopOpen := restarts < 0 // Stop is called while a Subscription is still open: it fails, and the topic stays joined
+	if stopOpen {
+		restarts = 0
+	}
 	ctx, cancel := context.WithTimeout(context.Background(), 20*time.Second)
 	defer cancel()
 	mn, err := mocknet.FullMeshLinked(2)
@@ -309,6 +313,11 @@ func c11Restart(restarts int) {
 		panic(err)
 	}
 	defer rsub.Cancel()
+	if stopOpen {
+		if err := sub.Stop(ctx); err == nil {
+			lifecycle = "stop-succeeded-with-open-subscription"
+		}
+	}
 	// local broadcast of a header the verifier rejects
 	local := "refused"
 	if err := sub.Broadcast(ctx, chain[1]); err == nil {
@@ -353,5 +362,8 @@ func c11Restart(restarts int) {
 	if d == "" {
 		d = "-"
 	}
-	emit("C11 kind=restart restarts=%d => lifecycle=ok local=%s verifierasked=%d delivered=%s crashed=%d", restarts, local, b2i(askedLocal), d, crashed)
+	if stopOpen {
+		restarts = -1
+	}
+	emit("C11 kind=restart restarts=%d => lifecycle=%s local=%s verifierasked=%d delivered=%s crashed=%d", restarts, lifecycle, local, b2i(askedLocal), d, crashed)
 }
